@@ -250,6 +250,10 @@ func vScenarioC01(rc *runCtx) {
 		return
 	}
 	tp := rc.tape
+	if tp.Bool("c01.dupnames", 40) {
+		vC01DupNames(rc)
+		return
+	}
 	cfg := vDrawConfig(tp, rc.param("full", "1") == "1")
 	maxSize := 400000
 	if cfg.bufSize == "1K" || cfg.bufSize == "4k" {
